@@ -7,6 +7,8 @@ CONSTANTS
   MaxReq = 1
   NPkts = 0
   CtxMayExpire = TRUE
+  PlainShut = {}
+  DeadlinesMayFire = FALSE
   ClientMayClose = FALSE
   HandlerMayClose = FALSE
   HandlerMayHijack = FALSE
